@@ -20,7 +20,8 @@ RULE = (
     'Generated workflow (as C01, no future/absolute triggers) with execution '
     'and submission retry delay lists of length 0-2 (PT0S) per task, outcome '
     'sequences per instance of up to 4 submissions (fail / submit-fail / '
-    'succeed), schedules of <=50 steps over loop / return / advance / '
+    'submitted-then-vanished-from-the-job-runner (noticed only by poll; the '
+    'drain of such cases polls every 3rd round) / succeed), schedules of <=50 steps over loop / return / advance / '
     'deliver / duplicate-deliver / user poll, then a fair drain.  Oracle per '
     'instance: launches <= (N+1)(M+1); submit numbers are 1..k without gap '
     'or repeat; launch k+1 only after job k has emitted failed or failed '
@@ -54,11 +55,17 @@ def cases(draw):
             n = draw(st.integers(1, 4))
             outcomes[f'{p}/{t}'] = [
                 {'final': draw(st.sampled_from(
-                    ['failed', 'failed', 'submit-fail', None]))}
+                    ['failed', 'failed', 'submit-fail', 'vanish', None]))}
                 for _ in range(n)]
     sched = draw(schedules(50, ops=('loop', 'loop', 'ret', 'adv', 'del',
                                     'dup', 'poll')))
-    return {'spec': spec, 'outcomes': outcomes, 'schedule': sched}
+    case = {'spec': spec, 'outcomes': outcomes, 'schedule': sched}
+    if any(oc.get('final') == 'vanish'
+           for lst in outcomes.values() for oc in lst):
+        # a job that disappears from the job runner without starting is
+        # only ever noticed by a poll: the fair drain polls every 3rd round
+        case['poll_every'] = 3
+    return case
 
 
 def check_case(case, ctx: Ctx) -> CaseResult:
@@ -76,7 +83,7 @@ def model_launches(spec, outcomes, t, p):
         k += 1
         oc = outcome_for(outcomes, t, p, k)
         final = oc.get('final') or 'succeeded'
-        if final == 'submit-fail':
+        if final in ('submit-fail', 'vanish'):
             if s < M:
                 s += 1
                 continue
@@ -137,7 +144,7 @@ async def _check(case, ctx: Ctx) -> CaseResult:
                 prev_sn = evs[i - 1]['submit_num']
                 job = sim.jobs.get((cyc, t, prev_sn))
                 prev_failed = job is not None and (
-                    not job.submit_ok
+                    not job.submit_ok or job.vanished
                     or (t, cyc, prev_sn) in failure_emitted)
                 if not prev_failed:
                     viol.append(Violation(
